@@ -70,7 +70,7 @@ def parse_registry():
                     cur = {"name": v, "file": fn, "props": [], "tier": "quick", "timeout": 600,
                            "mem": 12, "functions": "", "bounds": "", "stubs": "none", "assumes": "none",
                            "cut": "", "flags": "", "kind": "core", "witness": "", "sub": "", "cfg": "",
-                           "replay": "playback", "fs": "1024", "modpath": ""}
+                           "replay": "playback", "fs": "1024", "modpath": "", "bodyfile": ""}
                     reg.append(cur)
                 elif cur is not None:
                     if k == "props":
@@ -79,7 +79,7 @@ def parse_registry():
                         cur[k] = True
                     elif k in ("timeout", "mem"):
                         cur[k] = int(v)
-                    elif k in cur and isinstance(cur[k], str) and cur[k] and k not in ("tier", "kind", "stubs", "assumes", "replay", "fs", "modpath"):
+                    elif k in cur and isinstance(cur[k], str) and cur[k] and k not in ("tier", "kind", "stubs", "assumes", "replay", "fs", "modpath", "bodyfile"):
                         cur[k] += " " + v
                     else:
                         cur[k] = v
@@ -107,7 +107,7 @@ class Scratch:
             shutil.rmtree(self.dir)
         os.makedirs(self.dir, exist_ok=True)
         for d in os.listdir(self.dir):
-            if d == "src-tree" or d.startswith("variant-") or d == "logs":
+            if d == "src-tree" or d.startswith("variant-") or d == "logs" or d == "harness-snapshot":
                 shutil.rmtree(os.path.join(self.dir, d))
         subprocess.run(["rsync", "-a", "--exclude", "target", "--exclude", ".git", "--exclude", "pybigtools",
                         "--exclude", "bench", "--exclude", "assets", REPO + "/", self.dir + "/src-tree/"], check=True)
@@ -122,9 +122,15 @@ class Scratch:
         with open(os.path.join(self.tree, ".cargo", "config.toml"), "w") as f:
             f.write('[net]\noffline = true\n\n[patch.crates-io]\nrustix = { path = "%s" }\n'
                     % os.path.join(HERE, "vendor", "rustix-0.37.19"))
+        # the run works on a SNAPSHOT of the harness directory (edits to /verif/harness while a check is
+        # running must not change what that check compiles)
+        self.hdir = os.path.join(self.dir, "harness-snapshot")
+        if os.path.exists(self.hdir):
+            shutil.rmtree(self.hdir)
+        shutil.copytree(HARNESS_DIR, self.hdir)
         # inject harness modules
         for hf, src in INJECT.items():
-            hp = os.path.join(HARNESS_DIR, hf)
+            hp = os.path.join(self.hdir, hf)
             sp = os.path.join(self.crate, src)
             if not os.path.exists(hp):
                 continue
@@ -140,7 +146,7 @@ class Scratch:
         with open(lib, "a") as f:
             f.write("\n#[cfg(kani)]\nextern crate alloc;\n")
             f.write('#[cfg(kani)]\n#[allow(unused, dead_code)]\npub(crate) mod verif_support {\n    include!("%s");\n}\n'
-                    % os.path.join(HARNESS_DIR, "support.rs"))
+                    % os.path.join(self.hdir, "support.rs"))
 
     def variant(self, sub):
         """a copy of the crate sources with textual substitutions `file:::old:::new` applied (each must
@@ -153,7 +159,7 @@ class Scratch:
             subprocess.run(["rsync", "-a", self.tree + "/", vdir + "/"], check=True)
             for one in sub.split("|||"):
                 parts = [x.strip() for x in one.split(":::")]
-                f, old, new = parts[0], parts[1], parts[2].replace("{HARNESS_DIR}", HARNESS_DIR)
+                f, old, new = parts[0], parts[1], parts[2].replace("{HARNESS_DIR}", self.hdir)
                 want = int(parts[3]) if len(parts) > 3 else 1
                 p = os.path.join(vdir, CRATE_SUB, f)
                 s = open(p).read()
@@ -193,7 +199,7 @@ def run_cmd(cmd, cwd, logpath, timeout, mem_gb, env=None):
 
 
 def parse_kani_log(text):
-    r = {"status": None, "checks_total": None, "checks_failed": None, "failed": [], "covers": None,
+    r = {"steps": None, "status": None, "checks_total": None, "checks_failed": None, "failed": [], "covers": None,
          "covers_sat": None, "vccs": None, "vccs_remaining": None, "variables": None, "clauses": None,
          "symex_s": None, "solver_s": None, "verif_time_s": None, "stubs_applied": [], "unwind_fail": False,
          "unsat_covers": []}
@@ -211,6 +217,9 @@ def parse_kani_log(text):
         r["vccs"], r["vccs_remaining"] = int(m.group(1)), int(m.group(2))
     for m in re.finditer(r"(\d+) variables, (\d+) clauses", text):
         r["variables"], r["clauses"] = int(m.group(1)), int(m.group(2))
+    m = re.search(r"size of program expression: (\d+) steps", text)
+    if m:
+        r["steps"] = int(m.group(1))
     m = re.search(r"Runtime Symex: ([\d.e+-]+)s", text)
     if m:
         r["symex_s"] = float(m.group(1))
@@ -376,9 +385,16 @@ class Runner:
         rc, to, wall = run_cmd(cmd, crate, logpath, max(1800, h["timeout"] * 2), max(40, h["mem"]) if sliced else 52, env)
         text = open(logpath, errors="replace").read()
         blocks = re.findall(r"```\s*(?:rust)?\n(.*?)```", text, re.S)
+        only_unwind = all("unwinding assertion" in fc["desc"] for fc in out["failed_real"])
+        if only_unwind and h["replay"] == "inputfree":
+            # kani prints no playback test for unwinding assertions. The harness declares that it has no
+            # symbolic input, so the replay is simply the harness run natively under a watchdog.
+            blocks = ["/// synthesized: input-free harness, non-termination witness\n#[test]\nfn kani_concrete_playback_%s_inputfree() {\n    let concrete_vals: Vec<Vec<u8>> = vec![];\n    kani::concrete_playback_run(concrete_vals, %s);\n}\n" % (name, name)]
         # kani prints one test per failed check AND per satisfied cover: keep the one for a failing check
         descs = [fc["desc"].strip('"') for fc in out["failed_real"]]
         pick = [b for b in blocks if any(d and d in b for d in descs)]
+        if not pick and only_unwind and h["replay"] == "inputfree":
+            pick = blocks
         if not pick:
             pick = [b for b in blocks if "Check for `cover`" not in b]
         if not pick:
@@ -393,27 +409,34 @@ class Runner:
         # native replay runs the REAL code: no kani stubs apply under `cargo kani playback`, and for
         # harnesses with a source substitution the unsubstituted scratch crate is tried first
         crates = [self.s.crate] if crate == self.s.crate else [self.s.crate, crate]
+        if h["bodyfile"]:
+            crates = [crate]  # the harness body lives in a module that only exists in the substituted copy
         results = {}
         for ci, rcrate in enumerate(crates):
-            src = os.path.join(rcrate, INJECT[h["file"]])
-            orig = open(src).read()
-            marker = "mod %s {\n" % modname
-            idx = orig.rfind(marker)
-            open(src, "w").write(orig[:idx + len(marker)] + test_src + "\n" + orig[idx + len(marker):])
-            tag = "real" if ci == 0 else "substituted"
+            if h["bodyfile"]:
+                src = os.path.join(self.s.hdir, h["bodyfile"])
+                orig = open(src).read()
+                open(src, "w").write(orig + "\n" + test_src + "\n")
+            else:
+                src = os.path.join(rcrate, INJECT[h["file"]])
+                orig = open(src).read()
+                marker = "mod %s {\n" % modname
+                idx = orig.rfind(marker)
+                open(src, "w").write(orig[:idx + len(marker)] + test_src + "\n" + orig[idx + len(marker):])
+            tag = "real" if (ci == 0 and not h["bodyfile"]) else "substituted"
             plog = os.path.join(self.logdir, name + ".playback-%s.log" % tag)
             penv = dict(env)
             penv["RUSTFLAGS"] = (penv.get("RUSTFLAGS", "") + " --cfg verif_replay").strip()
             penv["CARGO_TARGET_DIR"] = lane + "-pb"
             cmd = ["cargo", "kani", "playback", "-Z", "concrete-playback", "-Z", "stubbing"] + KANI_FEATURES + ["--", tname, "--nocapture"]
             try:
-                rc, to, wall = run_cmd(cmd, rcrate, plog, 900, 12, penv)
+                rc, to, wall = run_cmd(cmd, rcrate, plog, 90 if (only_unwind and h["replay"] == "inputfree") else 900, 12, penv)
             finally:
                 open(src, "w").write(orig)
             ptxt = open(plog, errors="replace").read()
             out.setdefault("replay_logs", []).append(plog)
             if to:
-                results[tag] = "hang(>900s)"
+                results[tag] = "hang(watchdog)"
             elif re.search(r"test result: FAILED|panicked at|memory allocation of", ptxt):
                 # the native panic must be THE failed check (same message, or same source location in
                 # the repository code), not some other panic of the harness environment
@@ -506,20 +529,24 @@ def main():
         total_mem = sum(h["mem"] for h in sel)
         jobs = a.jobs or max(1, min(len(sel), NCPU // 2, 8))
         # memory guard: never schedule more than ~52 GB of declared caps at once
-        sem_mem = threading.Semaphore(52)
+        mem_cv = threading.Condition()
+        mem_free = [52]
         results = []
 
         def work(h):
             need = min(h["mem"], 52)
-            for _ in range(need):
-                sem_mem.acquire()
+            with mem_cv:  # all-or-nothing reservation (unit-by-unit acquisition can deadlock two workers)
+                while mem_free[0] < need:
+                    mem_cv.wait()
+                mem_free[0] -= need
             try:
                 r = runner.run(h)
             except Exception as e:  # tool failure is never a pass
                 r = {"harness": h["name"], "verdict": "inconclusive", "reason": "driver exception: %r" % e}
             finally:
-                for _ in range(need):
-                    sem_mem.release()
+                with mem_cv:
+                    mem_free[0] += need
+                    mem_cv.notify_all()
             log("  [%s] %-44s %-12s wall=%ss solver=%ss vccs=%s %s" % (
                 a.prop, h["name"], r["verdict"], r.get("wall_s"), r.get("solver_s"), r.get("vccs"),
                 r.get("reason", "")))
@@ -613,7 +640,7 @@ def write_evidence(prop, tier, seed, sel, results, wall, nviol, known_hits, inco
             "checks_total": r.get("checks_total"), "checks_failed": r.get("checks_failed"),
             "covers": r.get("covers"), "covers_satisfied": r.get("covers_sat"),
             "vccs_generated": r.get("vccs"), "vccs_after_simplification": r.get("vccs_remaining"),
-            "sat_variables": r.get("variables"), "sat_clauses": r.get("clauses"),
+            "symex_steps": r.get("steps"), "sat_variables": r.get("variables"), "sat_clauses": r.get("clauses"),
             "symex_s": r.get("symex_s"), "solver_s": r.get("solver_s"), "wall_s": r.get("wall_s"),
             "stubs_applied_by_kani": r.get("stubs_applied"), "reason": r.get("reason"),
             "failed_checks": r.get("failed_real"), "replay": r.get("replay"),
@@ -631,6 +658,12 @@ def write_evidence(prop, tier, seed, sel, results, wall, nviol, known_hits, inco
             "evaluations": len(results),
             "distinct_nontrivial": len(nontrivial),
             "rule": "one evaluation = one Kani proof harness (real bigtools code compiled from /repo's working tree, symbolic inputs, decided by CBMC/CaDiCaL for ALL inputs within the harness bounds). Non-trivial = verdict proved AND >0 verification conditions generated AND every kani::cover! vacuity witness satisfied.",
+            # model-checking keys: for bounded model checking of code the "state space" is the unrolled symbolic
+            # program: states = symbolic-execution steps (SSA program points explored by CBMC over all harnesses),
+            # transitions = verification conditions generated from them; every one is decided for all inputs
+            "states": max(1, sum((r.get("steps") or 0) for r in results)),
+            "transitions": max(1, sum((r.get("vccs") or 0) for r in results)),
+            "traces_validated_against_impl": sum(1 for r in results if r.get("replay", {}).get("status") == "reproduced"),
             "obligations": obligations, "discharged": discharged,
             "solver_seconds": round(sum((r.get("solver_s") or 0) for r in results), 2),
             "symex_seconds": round(sum((r.get("symex_s") or 0) for r in results), 2),
